@@ -98,7 +98,7 @@ def h_conservation(ctx, skeleton, n, sym_durations, dmax_h=2, rmax_h=3, args=Non
 
             def entry(attr):
                 d = getattr(job, attr)
-                vals = [v for k, v in d.items() if k.name == p]
+                vals = [v for k, v in d.items() if k.id == up.id]      # by identity: display names are not identifiers
                 ctx.require(len(vals) == 1, f"{j}.{attr} has exactly one entry for {p}")
                 return _cells(vals[0]) if vals else {}
             occ = entry("hourly_occurrences_per_usage_pattern")
@@ -142,7 +142,7 @@ def h_conservation(ctx, skeleton, n, sym_durations, dmax_h=2, rmax_h=3, args=Non
             for k, v in d.items():
                 for t, c in _cells(v).items():
                     tot[t] = tot.get(t, 0) + c
-            ctx.require(sorted(k.name for k in d.keys()) == sorted(p for p in gt["patterns"] if j in gt["jobs_of_pattern"][p]),
+            ctx.require(sorted(k.id for k in d.keys()) == sorted(objs[p].id for p in gt["patterns"] if j in gt["jobs_of_pattern"][p]),
                         f"{j}.hourly_{a}_per_usage_pattern keys = patterns using the job")
             V.compare_phys(ctx, getattr(job, f"hourly_{a}_across_usage_patterns"), (None, tot),
                            f"{j}: {a} across patterns = sum over patterns")
@@ -172,7 +172,11 @@ def plan(tier, seed):
          ("conservation", dict(skeleton="T7", n=2, sym_durations=[], negative=["jobdel"])),
          ("conservation", dict(skeleton="T4", n=2, sym_durations=[], negative=["jobB"])),
          ("conservation", dict(skeleton="TX", n=2, sym_durations=[], dmax_h=2)),
-         ("conservation", dict(skeleton="TX", n=2, sym_durations=[], dmax_h=2, args={"shared": True}))]
+         # two zones, one with a time change inside the period: per-pattern series with the same first hour and length, other hours
+         ("conservation", dict(skeleton="TH", n=5, sym_durations=[], dmax_h=2)),
+         ("conservation", dict(skeleton="TH", n=5, sym_durations=["request"], rmax_h=2, args={"shared_journey": False})),
+         ("conservation", dict(skeleton="TX", n=2, sym_durations=[], dmax_h=2, args={"shared": True})),
+         ("conservation", dict(skeleton="TX", n=2, sym_durations=[], dmax_h=2, args={"same_names": True}))]
     if tier == "thorough":
         p += [("conservation", dict(skeleton="TX", n=2, sym_durations=["request"], rmax_h=2, args={"shared": True})),
               ("conservation", dict(skeleton="T1", n=4, sym_durations=["steps", "request"], dmax_h=3, rmax_h=3)),
